@@ -47,7 +47,6 @@ class Context:
 
     def exit_matrix(self) -> None:
         self._in_matrix = False
-        self._locals.clear()
 
     def enter_loop(self) -> None:
         self._loop_stack.append(_LoopContext())
